@@ -2615,7 +2615,7 @@ bool BW_MidiSequencer::parseRSXX(FileAndMemReader &fr)
 
         // Read track data
         rawTrackData[tk].resize(trackLength);
-        fsize = fr.read(&rawTrackData[tk][0], 1, trackLength);
+        fsize = fr.read(rawTrackData[tk].data(), 1, trackLength);
         if(fsize < trackLength)
         {
             m_errorString = fr.fileName() + ": Unexpected file ending while getting raw track data!\n";
@@ -2743,7 +2743,7 @@ bool BW_MidiSequencer::parseCMF(FileAndMemReader &fr)
 
         // Read track data
         rawTrackData[tk].resize(trackLength);
-        fsize = fr.read(&rawTrackData[tk][0], 1, trackLength);
+        fsize = fr.read(rawTrackData[tk].data(), 1, trackLength);
         if(fsize < trackLength)
         {
             m_errorString = fr.fileName() + ": Unexpected file ending while getting raw track data!\n";
@@ -2813,7 +2813,7 @@ bool BW_MidiSequencer::parseGMF(FileAndMemReader &fr)
 
         // Read track data
         rawTrackData[tk].resize(trackLength);
-        fsize = fr.read(&rawTrackData[tk][0], 1, trackLength);
+        fsize = fr.read(rawTrackData[tk].data(), 1, trackLength);
         if(fsize < trackLength)
         {
             m_errorString = fr.fileName() + ": Unexpected file ending while getting raw track data!\n";
@@ -2907,7 +2907,7 @@ bool BW_MidiSequencer::parseSMF(FileAndMemReader &fr)
 
         // Read track data
         rawTrackData[tk].resize(trackLength);
-        fsize = fr.read(&rawTrackData[tk][0], 1, trackLength);
+        fsize = fr.read(rawTrackData[tk].data(), 1, trackLength);
         if(fsize < trackLength)
         {
             m_errorString = fr.fileName() + ": Unexpected file ending while getting raw track data!\n";
